@@ -13,7 +13,7 @@ func init() {
 		ID:    "C11",
 		Title: "Registration state equals what a fresh container with the same content has",
 		Decided: "C11.a the container's registration state (service list, mux, root flag) is written only by constructors on fresh objects, package init, Add and Remove, the latter two under the write lock, and Remove's success path replaces all of it; C11.b Add scans for a duplicate root before it registers on the mux and appends, exits only on root-path equality, and appends after the mux registration; " +
-			"C11.c every mux registration made for a WebService is suppressed only by an equality on the very key that is registered (or a normalisation of it), computed the same way on both sides, never by a partial match or by a key from before a truncating step; C11.d the rebuild in Remove never asks the membership scan about an element of the list it is still holding; C11.e every kind of registration made on the container's mux is replayed by Remove's rebuild. C11.i every request-path lock is released on all exits, also when user code under it panics (= C10.c); C11.j a computed mux pattern is registered only where the value it is trimmed from was tested against \"\" and \"/\"; C11.k both operands of a registration-time string equality went through the same rewriting functions.",
+			"C11.c every mux registration made for a WebService is suppressed only by an equality on the very key that is registered (or a normalisation of it), computed the same way on both sides, never by a partial match or by a key from before a truncating step; C11.d the rebuild in Remove never asks the membership scan about an element of the list it is still holding; C11.e every kind of registration made on the container's mux is replayed by Remove's rebuild. C11.i every request-path lock is released on all exits, also when user code under it panics (= C10.c); C11.j a computed mux pattern is registered only where the value it is trimmed from was tested against \"\" and \"/\"; C11.k both operands of a registration-time string equality went through the same rewriting functions. C11.l every derived holder of routes or services that the request path reads is written (or version-stamped) by every function that changes WebService.routes / Container.webServices, on the same paths.",
 		NotDecided: "equality of responses between the edited and the fresh container (behavioural); agreement of Dispatch and ServeHTTP beyond the mux registrations; RemoveRoute's choice of routes (value-level).",
 		Rules: []Rule{
 			{ID: "C11.a", Template: "T-OWN", Required: true, Run: ruleC11a,
@@ -30,6 +30,8 @@ func init() {
 				Doc: "An entry is dropped by a removal only when its whole key equals the argument's (Method and Path for RemoveRoute, root path for Remove); every other entry is appended to the new list before the scan moves on. A weakened condition (|| for &&, a constant) removes routes nobody asked to remove."},
 			{ID: "C11.h", Template: "T-ORDER", Required: true, Run: ruleC11h,
 				Doc: "The registration helper registers on the mux on every path on which no earlier registration was found, and reports 'registered on root' only after it registered \"/\": otherwise a service is reachable through Dispatch but answers 404 through ServeHTTP, or all later services are never registered."},
+			{ID: "C11.l", Template: "T-SIBLING", Required: true, Run: ruleDerivedRegistrationState,
+				Doc: "A second holder of routes or services (snapshot field, atomic.Value, sync.Map given a []Route) that the request path reads is written by every function that changes WebService.routes / Container.webServices, on the same paths, or guarded by a version stamp all its readers compare. A cache cleared by Route but not by RemoveRoute, or validated by the length of the list, keeps answering from removed routes."},
 			{ID: "C11.e", Template: "T-SIBLING", Required: true, Run: ruleC11e,
 				Doc: "Remove builds a new mux; whatever registers on the container's mux must be replayed onto it, otherwise that kind of registration vanishes after any Remove."},
 			{ID: "C11.i", Template: "T-LOCK", Required: true, Run: ruleC10c,
